@@ -182,8 +182,11 @@ package http2
 //@   ensures st != nil && st.id == id
 //@   ensures forall s *serverConn :: old(hdrCacheOK(s)) ==> hdrCacheOK(s)
 //@ func (*serverConn).checkPriority :: sc, streamID, p -> err
-//@   trusted
+//@   props C13
+//@   requires sc != nil
 //@   assigns nothing
+//@   ensures [C13:stream-depending-on-itself-is-a-stream-protocol-error] streamID == p.StreamDep ==> isStreamErr(err, streamID, 1)
+//@   ensures [C13:other-dependencies-accepted] streamID != p.StreamDep ==> err == nil
 //@ -- C09/C05: what the handler sees as Request.Host is the :authority the client addressed (a "host" line only
 //@ -- fills in when there is no :authority); regular fields land in Request.Header under canonical keys
 //@ pure func pseudoVal(f *MetaHeadersFrame, name string) string
@@ -244,7 +247,7 @@ package http2
 //@   ensures [C13:concurrency-limit-refuses-the-stream-without-a-handler] old(f.HeadersFrame.FrameHeader.StreamID) % 2 == 1 && !(old(mapHas(sc.streams, f.HeadersFrame.FrameHeader.StreamID)) && old(mapGet(sc.streams, f.HeadersFrame.FrameHeader.StreamID)) != nil) && old(f.HeadersFrame.FrameHeader.StreamID) > old(sc.maxClientStreamID) && old(sc.curClientStreams) + 1 > old(sc.advMaxStreams) ==> err.(StreamError) && handlerStarts == old(handlerStarts)
 
 //@ -- what the serve loop maintains between frames, and what the framer guarantees about a frame it hands over
-//@ pure func connInv(sc *serverConn) bool = streamsOK(sc) && inflowOK(sc.inflow) && (forall id uint32 :: mapHas(sc.streams, id) ==> inflowOK(mapGet(sc.streams, id).inflow)) && (forall id uint32 :: mapHas(sc.streams, id) && mapGet(sc.streams, id).state == 1 ==> mapGet(sc.streams, id).body != nil) && connLedger(sc) <= 2147483647 && owedByBodies >= 0 && sc.hs != nil && sc.srv != nil && sc.handler != nil && sc.conn != nil && sc.writeSched != nil && sc.curClientStreams < 4294967295 && hdrCacheOK(sc) && (forall id uint32 :: mapHas(sc.streams, id) ==> mapGet(sc.streams, id).state != 0) && (sc.pingSent ==> sc.readIdleTimer != nil)
+//@ pure func connInv(sc *serverConn) bool = streamsOK(sc) && inflowOK(sc.inflow) && (forall id uint32 :: mapHas(sc.streams, id) ==> inflowOK(mapGet(sc.streams, id).inflow)) && (forall id uint32 :: mapHas(sc.streams, id) && mapGet(sc.streams, id).state == 1 ==> mapGet(sc.streams, id).body != nil) && connLedger(sc) <= 2147483647 && owedByBodies >= 0 && sc.hs != nil && sc.srv != nil && sc.handler != nil && sc.conn != nil && sc.writeSched != nil && sc.curClientStreams < 4294967295 && hdrCacheOK(sc) && (forall id uint32 :: mapHas(sc.streams, id) ==> mapGet(sc.streams, id).state != 0) && (sc.pingSent ==> sc.readIdleTimer != nil) && sc.unackedSettings >= 0
 //@ pure func frameWF(f Frame) bool = (isptr(WindowUpdateFrame, f) ==> 1 <= unboxptr(WindowUpdateFrame, f).Increment && unboxptr(WindowUpdateFrame, f).Increment <= 2147483647) && (isptr(DataFrame, f) ==> unboxptr(DataFrame, f).FrameHeader.valid && len(unboxptr(DataFrame, f).data) <= unboxptr(DataFrame, f).FrameHeader.Length && unboxptr(DataFrame, f).FrameHeader.Length <= 16777215)
 
 //@ -- C12, client transport: one piece of request body never exceeds the stream/connection windows, the caller's
@@ -326,3 +329,48 @@ package http2
 //@   ensures [C13:window-update-on-closed-stream-tolerated] old(f.FrameHeader.StreamID) != 0 && !old(mapHas(sc.streams, f.FrameHeader.StreamID)) && !old(ite(f.FrameHeader.StreamID % 2 == 1, f.FrameHeader.StreamID > sc.maxClientStreamID, f.FrameHeader.StreamID > sc.maxPushPromiseID)) ==> err == nil
 //@   ensures [C12:stream-window-overflow-is-a-stream-flow-control-error] old(f.FrameHeader.StreamID) != 0 && old(mapHas(sc.streams, f.FrameHeader.StreamID)) ==> (err == nil <==> old(mapGet(sc.streams, f.FrameHeader.StreamID).flow.n) + old(f.Increment) <= 2147483647) && (err != nil ==> isStreamErr(err, old(f.FrameHeader.StreamID), 3))
 //@   ensures [C12:connection-window-overflow-ends-the-connection-with-flow-control-error] old(f.FrameHeader.StreamID) == 0 ==> (err == nil <==> old(sc.flow.n) + old(f.Increment) <= 2147483647) && (err != nil ==> err.(goAwayFlowError))
+
+//@ func (*serverConn).processPriority :: sc, f -> err
+//@   props C13,C10
+//@   requires sc != nil && f != nil && sc.writeSched != nil
+//@   assigns unrestricted, procLog
+//@   ghostset procLog = procLog ++ seq[int]{2}
+//@   ensures procLog == old(procLog) ++ seq[int]{2}
+//@   ensures [C13:priority-frame-with-self-dependency-is-a-stream-error] old(f.FrameHeader.StreamID == f.PriorityParam.StreamDep) ==> isStreamErr(err, old(f.FrameHeader.StreamID), 1)
+//@   ensures [C13:priority-frame-accepted-in-any-stream-state] old(f.FrameHeader.StreamID != f.PriorityParam.StreamDep) ==> err == nil
+
+//@ func (*serverConn).startGracefulShutdownInternal :: sc
+//@   trusted
+//@   assigns unrestricted
+//@ func (*serverConn).processGoAway :: sc, f -> err
+//@   props C13,C10
+//@   requires sc != nil && f != nil
+//@   assigns unrestricted, procLog
+//@   ghostset procLog = procLog ++ seq[int]{7}
+//@   ensures procLog == old(procLog) ++ seq[int]{7}
+//@   ensures [C13:goaway-from-client-never-an-error-and-disables-push] err == nil && !sc.pushEnabled
+
+//@ func (*SettingsFrame).HasDuplicates :: f -> r
+//@   trusted
+//@   pure
+//@ func (*SettingsFrame).ForeachSetting :: f, fn -> err
+//@   trusted
+//@   assigns unrestricted
+//@ func (*serverConn).processSetting :: sc, s -> err
+//@   props C13,C12,C10
+//@   requires sc != nil && streamsOK(sc) && sc.initialStreamSendWindowSize >= 0 && sc.hpackEncoder != nil
+//@   assigns unrestricted
+//@   ensures [C13:setting-out-of-range-is-the-rfc-connection-error] (s.ID == 2 && s.Val != 0 && s.Val != 1 ==> isConnErr(err, 1)) && (s.ID == 4 && s.Val > 2147483647 ==> isConnErr(err, 3)) && (s.ID == 5 && (s.Val < 16384 || s.Val > 16777215) ==> isConnErr(err, 1)) && (s.ID == 8 && s.Val != 0 && s.Val != 1 ==> isConnErr(err, 1))
+//@   ensures [C12:peer-max-frame-size-recorded] s.ID == 5 && 16384 <= s.Val && s.Val <= 16777215 ==> err == nil && sc.maxFrameSize == s.Val
+//@   ensures [C13:unknown-settings-ignored] (s.ID == 0 || s.ID == 7 || s.ID > 8) ==> err == nil
+//@   ensures [C12:initial-window-size-recorded] s.ID == 4 && s.Val <= 2147483647 ==> sc.initialStreamSendWindowSize == s.Val
+
+//@ func (*serverConn).processSettings :: sc, f -> err
+//@   props C13,C10
+//@   requires sc != nil && f != nil && sc.unackedSettings >= 0
+//@   assigns unrestricted, procLog
+//@   ghostset procLog = procLog ++ seq[int]{4}
+//@   ensures procLog == old(procLog) ++ seq[int]{4}
+//@   ensures [C13:unexpected-settings-ack-is-protocol-error] old(flag(f.FrameHeader.Flags, 1)) && old(sc.unackedSettings) <= 0 ==> isConnErr(err, 1)
+//@   ensures [C13:expected-settings-ack-counted] old(flag(f.FrameHeader.Flags, 1)) && old(sc.unackedSettings) > 0 ==> err == nil && sc.unackedSettings == old(sc.unackedSettings) - 1
+//@   ensures [C13:oversized-settings-frame-is-protocol-error] !old(flag(f.FrameHeader.Flags, 1)) && old(len(f.p)) / 6 > 100 ==> isConnErr(err, 1)
